@@ -169,6 +169,9 @@ static void ob_distributions(H<T>& h)
     std::vector<std::vector<hep::mc_result<T>>> bins(nb);
     hep::distribution_parameters<T> params = by > 1 ? hep::distribution_parameters<T>(2, by, T(0.0), T(1.0), T(0.0), T(1.0), "d")
                                                      : hep::distribution_parameters<T>(2, T(0.0), T(1.0), "d");
+    std::size_t const nd = h.get("nd", 1);
+    hep::distribution_parameters<T> const params2(1, T(0.0), T(2.0), "e");
+    std::vector<hep::mc_result<T>> second;
     for (std::size_t i = 0; i != m; ++i)
     {
         std::vector<hep::mc_result<T>> b;
@@ -183,13 +186,32 @@ static void ob_distributions(H<T>& h)
         T const E = h.input("E", -1e6, 1e6);
         T const S = h.input("S", 0.0, 1e6, true, false);
         auto const tot = hep::create_result<T>(3 + i, 2, 1, E, S);   // one of the non-zero evaluations was not finite
-        results.emplace_back(std::vector<hep::distribution_result<T>>{hep::distribution_result<T>(params, b)},
-            tot.calls(), tot.non_zero_calls(), tot.finite_calls(), tot.sum(), tot.sum_of_squares());
+        std::vector<hep::distribution_result<T>> dists{hep::distribution_result<T>(params, b)};
+        if (nd > 1)
+        {
+            // a second distribution with a single bin
+            T const E2 = h.input("E", -1e6, 1e6);
+            T const S2 = h.input("S", 0.0, 1e6, true, false);
+            second.push_back(hep::create_result<T>(3 + i, 2, 2, E2, S2));
+            dists.emplace_back(params2, std::vector<hep::mc_result<T>>{second.back()});
+        }
+        results.emplace_back(dists, tot.calls(), tot.non_zero_calls(), tot.finite_calls(), tot.sum(), tot.sum_of_squares());
     }
     hep::plain_result<T> const c = hep::accumulate<hep::weighted_with_variance>(results.begin(), results.end());
-    h.check("C13|distributions.kept", h.truth(c.distributions().size() == 1 && c.distributions()[0].results().size() == nb &&
+    h.check("C13|distributions.kept", h.truth(c.distributions().size() == nd && c.distributions()[0].results().size() == nb &&
         c.distributions()[0].parameters().name() == "d"));
-    if (c.distributions().size() != 1 || c.distributions()[0].results().size() != nb) return;
+    if (c.distributions().size() != nd || c.distributions()[0].results().size() != nb) return;
+    if (nd > 1)
+    {
+        auto const& d2 = c.distributions()[1];
+        h.check("C13|distributions.every_distribution_keeps_its_own_bins_and_parameters",
+            h.truth(d2.results().size() == 1 && d2.parameters().name() == "e" && d2.parameters().bins_x() == 1));
+        if (d2.results().size() != 1) return;
+        hep::mc_result<T> const ref2 = hep::accumulate<hep::weighted_with_variance>(second.begin(), second.end());
+        h.check("C13|distributions.same_rule_applied_independently_to_every_bin",
+            h.truth(d2.results()[0].calls() == ref2.calls() && d2.results()[0].non_zero_calls() == ref2.non_zero_calls())
+            && h.eq(d2.results()[0].sum(), ref2.sum()) && h.eq(d2.results()[0].sum_of_squares(), ref2.sum_of_squares()));
+    }
     for (std::size_t k = 0; k != nb; ++k)
     {
         hep::mc_result<T> const ref = hep::accumulate<hep::weighted_with_variance>(bins[k].begin(), bins[k].end());
